@@ -144,8 +144,8 @@ func runDispose(r Round) *outcome {
 		})
 	}
 	rc.release()
-	if !rc.wait(10 * time.Second) {
-		o.failf("C16/dispose/close-did-not-return", "a Close/AddCleanHandler call did not return within 10s")
+	if ok, dump := rc.waitBlocked(10*time.Second, 40*time.Second); !ok {
+		o.failf("C16/dispose/close-did-not-return", "a Close/AddCleanHandler call did not return within 10s"+"; goroutines inside the code under test:\n%s", dump)
 		return o
 	}
 	rc.measure(o)
